@@ -11,35 +11,35 @@ CHECKS = {
     "C01": dict(
         level="model_checking",
         technique="TLA+ specs RenderLocate.tla (Render + LocateCart actions; premises and OnePerOriginal/ExactVolume/HalfCell as integer invariants) and LocateSym.tla (polar/spherical/cylindrical pipelines; RadialHalfCell, CylOne) model-checked by TLC over all lattice placements; spec->code replay; TraceLocate.tla for random non-lattice emulsions",
-        text="TLC enumerates every placement of 1-3 droplets with centres on the quarter-cell lattice (incl. outside the box on periodic axes), integer squared radii, anisotropic spacings and offsets satisfying the explicit premises, renders them and runs the locate actions; OnePerOriginal, ExactVolume, HalfCell (periodic metric), NoWinding are integer invariants. Radial grids: all squared radii 36..1600; cylindrical: on-axis droplets on the quarter lattice, with and without periodic z. Every configuration is rendered by the real code (mask must equal the spec's cell for cell, integral = covered volume) and located by the real locate_droplets (count, exact volume, rational centre of mass, bounds).",
+        text="TLC enumerates every placement of 1-3 droplets with centres on the quarter-cell lattice (incl. outside the box on periodic axes), integer squared radii, anisotropic spacings and offsets satisfying the explicit premises, renders them and runs the locate actions; OnePerOriginal, ExactVolume, HalfCell (periodic metric), NoWinding are integer invariants. Radial grids: all squared radii 36..1600; cylindrical: on-axis droplets on the quarter lattice, with and without periodic z. Every configuration is rendered by the real code (mask must equal the spec's cell for cell, integral = covered volume) and located by the real locate_droplets (count, exact volume, rational centre of mass, bounds). Random non-lattice emulsions (incl. pairs of large discs placed diagonally on 40x40 grids so that their bounding boxes overlap) are judged clause by clause (count, half cell, ExactVolume against an independent count of covered cells) and validated by TraceLocate.tla.",
         note="Premises (Resolvable/Separated/InBox) are my formalisation of 'well-separated, resolvable' and are part of the spec. Cylindrical droplets are kept r+1 cell away from the z boundaries (py-pde's periodic cylindrical metric wraps the wrong component; dependency issue, see DESIGN §3 C01). Non-lattice placements only sampled (TraceLocate).",
         ref="§3 C01",
     ),
     "C02": dict(
         level="model_checking",
         technique="TLA+ specs LocateCart.tla (label / per-boundary-point merge / select vs declarative lifted torus components from Lattice.tla) + Overlap.tla, model-checked by TLC over every binary image of small lattices; spec->code replay; code->spec trace validation (TraceLocate.tla, TraceOverlap.tla)",
-        text="TLC enumerates every binary image (SUBSET Cells) of 1-D/2-D/3-D lattices for all listed periodicity masks and checks Correct (one cluster per torus component, volume = cell count, moment = moment of the lifted component modulo the period for non-winding components), Ordered, MaskIntact, Termination; the pre-repair merge design is kept as Variant=\"original\" and is refuted by TLC (F1). Every image is replayed through locate_droplets_in_mask on concrete anisotropic/offset CartesianGrids; candidates captured before overlap removal must match the clusters, and the overlap stage is judged by TLC (Separated/Dominated/Subsequence) on the exact rational projection of the candidates. Large random images (noise, blobs, rings, stripes; 1-D..3-D) are validated by TraceLocate.tla.",
+        text="TLC enumerates every binary image (SUBSET Cells) of 1-D/2-D/3-D lattices for all listed periodicity masks and checks Correct (one cluster per torus component, volume = cell count, moment = moment of the lifted component modulo the period for non-winding components), Ordered, MaskIntact, Termination; the pre-repair merge design is kept as Variant=\"original\" and is refuted by TLC (F1). Every image is replayed through locate_droplets_in_mask on concrete anisotropic/offset CartesianGrids; candidates captured before overlap removal must match the clusters, and the overlap stage is judged by TLC (Separated/Dominated/Subsequence) on the exact rational projection of the candidates. Large random images (noise, blobs, rings, stripes, polydisperse bar/speck 'sandwiches' on open grids in which the overlapping pair is nobody's nearest neighbour; 1-D..3-D) are validated by TraceLocate.tla and TraceOverlap.tla. The cylindrical replays also run on grids whose spacing and origin are not exactly representable (F25).",
         note="Trusted: TLC; scipy.ndimage.label's raster numbering (affects order only); exact-rational projection; pde grid metric. Winding components: only volume/cells are judged (position unspecified by the property). Cylindrical clause: LocateSym.tla (every binary image of 3x3..4x4, 2x6, 3x6 lattices with and without periodic z): exactly one droplet per non-winding on-axis torus component (PeriodicCorrect), the padded analysis abandoned exactly for winding components (SpanSound); the pre-repair closed central filter is refuted by TLC in every run (F18).",
         ref="§3 C02",
     ),
     "C03": dict(
         level="model_checking",
         technique="TLA+ spec Render.tla (exact squared min-image distance field of lattice droplets; Inside as strict sub-level set; translation/roll, period, monotonicity, union laws) model-checked by TLC over every lattice droplet; spec->code replay cell by cell for SphericalDroplet/DiffuseDroplet; independent numeric oracle (associated Legendre series) for perturbed classes and symmetric grids",
-        text="TLC enumerates every droplet with centre on the (sub-)cell lattice within a margin of up to more than a period around 1-D/2-D/3-D Cartesian boxes of all periodicity masks (on cell centres, on faces, outside the box) and squared radii from 0 to beyond the box, and checks RollEquivariant (every shift, every cell of the distance field), PeriodInvariant, Monotone, OrderFree, NoWrapOpenAxes. Each is rendered by the real code as SphericalDroplet and DiffuseDroplet with width None / 0 / positive and two (vmin, vmax) pairs (incl. negative and reversed): finite, within range, exact indicator when sharp, '> midpoint iff Q < r2' for every cell incl. cells exactly on the interface, non-increasing in the spec's exact Q, translation by whole cells equals np.roll, emulsion field = clipped sum = indicator of the union when sharp, independent of order. 1600 (thorough 32000) random perturbed 2-D/3-D/axisymmetric droplets (also exactly on cell centres, on periodic grids, on cylindrical grids) and diffuse droplets on polar/spherical/cylindrical grids are compared with an independent evaluation of the documented shape series.",
+        text="TLC enumerates every droplet with centre on the (sub-)cell lattice within a margin of up to more than a period around 1-D/2-D/3-D Cartesian boxes of all periodicity masks (on cell centres, on faces, outside the box) and squared radii from 0 to beyond the box, and checks RollEquivariant (every shift, every cell of the distance field), PeriodInvariant, Monotone, OrderFree, NoWrapOpenAxes. Each is rendered by the real code as SphericalDroplet and DiffuseDroplet with width None / 0 / positive and two (vmin, vmax) pairs (incl. negative, reversed and not exactly representable ones such as (-0.1, 0.3): F22): finite, within range (exactly, no tolerance), exact indicator when sharp, '> midpoint iff Q < r2' for every cell incl. cells exactly on the interface, non-increasing in the spec's exact Q, translation by whole cells equals np.roll, emulsion field = clipped sum = indicator of the union when sharp, independent of order. 1600 (thorough 32000) random perturbed 2-D/3-D/axisymmetric droplets (also exactly on cell centres, on periodic grids, on cylindrical grids) and diffuse droplets on polar/spherical/cylindrical grids are compared with an independent evaluation of the documented shape series.",
         note="Trusted: TLC; numpy/scipy lpmv for the oracle. The general-direction inside/outside decision of perturbed shapes is a numeric comparison (cells within 1e-9 of the interface skipped), not model checking. Found and repaired F3 (NaN for a 3-D perturbed droplet on a cell centre) and F4 (axisymmetric droplets could not be rendered).",
         ref="§3 C03",
     ),
     "C04": dict(
         level="other",
         technique="TLA+ spec Refine.tla: the protocol of refine_droplet around the black-box solver (Promote, DefaultWidth, Region, FreeMask, Bounds, Solve = any non-worsening step inside the bounds, Wrap) model-checked by TLC on every request; spec->code conformance with scipy's least_squares replaced by a recording proxy",
-        text="TLC checks ClassKept, ConstraintsFrozen, BoundsLayout, RadiusWidthBounded, NeverWorse, WrapRespectsSymmetry, Termination on all requests family (10 grid families incl. periodicity) x candidate class (5) x modes x width option x level option (quick 100, thorough 360). Each request is executed on clean, noisy, self-rendered and neighbour-disturbed images (thorough: three grid spacings) with candidates displaced from the truth, outside the box on periodic axes and off the symmetry axis: the start vector and bounds handed to the solver must have the spec's layout (free parameters, 0 / -1 / 1 / inf pattern, two intensity parameters); the number of residuals must equal the documented region (binary image dilated 1+floor(2w) times); the handed-over objective and the independently recomputed documented deviation must not increase; result class/layout, radius, width >= 0, |amplitudes| <= 1, finite; frozen coordinates bit-identical; position inside the box on periodic axes; image bytes unchanged; self-rendered image returns the candidate within 1e-5 spacings.",
+        text="TLC checks ClassKept, ConstraintsFrozen, BoundsLayout, RadiusWidthBounded, NeverWorse, WrapRespectsSymmetry, Termination on all requests family (10 grid families incl. periodicity) x candidate class (5) x modes x width option x level option (quick 100, thorough 360). Each request is executed on clean, noisy, self-rendered and neighbour-disturbed images (thorough: three grid spacings) with candidates displaced from the truth, outside the box on periodic axes and off the symmetry axis: the start vector and bounds handed to the solver must have the spec's layout (free parameters, 0 / -1 / 1 / inf pattern, two intensity parameters); the number of residuals must equal the spec's region (binary image dilated 1+floor(2w/h) times, the width counted in cells on grids of spacing 1, 1/2, 1/4: F23); every fitted parameter of the returned droplet must be bit-identical to the solver's result (the proxy only watches the objective, it never evaluates it itself); the handed-over objective and the independently recomputed documented deviation must not increase; result class/layout, radius, width >= 0, |amplitudes| <= 1, finite; frozen coordinates bit-identical; position inside the box on periodic axes; image bytes unchanged; self-rendered image returns the candidate within 1e-5 spacings.",
         note="Level 'other': model checking of the protocol plus conformance observation of an opaque numeric step; nothing is claimed about the optimiser's quality. Found and repaired F12 (start vector used vmax for the range) and F17 (off-axis candidates rotated on symmetric grids).",
         ref="§3 C04",
     ),
     "C05": dict(
         level="exploration",
         technique="TLA+ spec Recover.tla: the complete scenario space of the property with its premises (resolvable, wrapped or inside, well separated, levels supplied or fitted) enumerated by TLC; spec-generated scenarios replayed through locate_droplets(refine=True) with the property's numeric tolerance (numeric oracle, not model checking)",
-        text="TLC enumerates all 64 200 admissible scenarios family (1-3 D Cartesian, polar, spherical, cylindrical) x periodicity x spacing ratio (1, 5/4, 3/2) x threshold rule (numeric, auto, extrema, mean, otsu) x intensity map ((0,1), (-0.1,0.1), (-0.3,0.9), (5,6), (-3,-1)) x level option (supplied, supplied+fitted, automatic+fitted) x centre class (cell centre, corner, generic, 0.03 cells left/right of the periodic seam, outside the box) x radius (3, 3.25, 5.5 cells) x width (1, 1.5, 2 cells) x 1-2 droplets. Each replayed scenario is rendered with dyadic spacing 0.5/1/2, random origin and seeded sub-cell jitter and located with refinement; every original must be matched by exactly one result with relative errors of position (per radius), radius and width < 1e-4 and periodic coordinates inside the box. Quick: 368 scenarios covering all 631 pairs of factor values; thorough: all 64 200 (worst relative error observed 1.2e-6).",
+        text="TLC enumerates all 64 200 admissible scenarios family (1-3 D Cartesian, polar, spherical, cylindrical) x periodicity x spacing ratio (1, 5/4, 3/2) x threshold rule (numeric, auto, extrema, mean, otsu) x intensity map ((0,1), (-0.1,0.1), (-0.3,0.9), (5,6), (-3,-1)) x level option (supplied, supplied+fitted, automatic+fitted) x centre class (cell centre, corner, generic, 0.03 cells left/right of the periodic seam, outside the box) x radius (3, 3.25, 5.5 cells) x width (1, 1.5, 2 cells) x 1-2 droplets. Each replayed scenario is rendered with spacing 2^-20, 2^-13, 0.5, 1, 2 or 2^10 (lengths are only a unit: F23), random origin and seeded sub-cell jitter and located with refinement; every original must be matched by exactly one result with relative errors of position (per radius), radius and width < 1e-4 and periodic coordinates inside the box. Quick: 368 scenarios covering all 631 pairs of factor values; thorough: all 64 200 (worst relative error observed 1.2e-6).",
         note="Level 'exploration': TLC only enumerates the scenario space; recovery accuracy is measured. The unrefined half (one candidate per droplet within half a cell) is model-checked by C01. Very low contrast (range < 0.2) and cylindrical droplets at the ends of the axis are outside the premises used here.",
         ref="§3 C05",
     ),
@@ -144,7 +144,7 @@ CHECKS = {
     "C20": dict(
         level="model_checking",
         technique="TLA+ spec Collections.tla (heap of droplet/Emulsion/EmulsionTimeCourse/DropletTrack objects with explicit identity; one action per public call) model-checked by TLC over all operation sequences up to the stated depth; every transition of the state graph replayed on real objects (spec->code) with full state, aliasing and query comparison; long random operation sequences recorded from real objects and validated by TraceCollections.tla (code->spec)",
-        text="TLC explores every sequence of <=3-5 public operations (append/extend with copy and force_consistency flags, constructors, copy(min_radius), slices, +, remove_small, remove_overlapping, get_linked_data + writes through the array, writes through caller references, merge of members in place and out of place, time-course append/slice/copy/index/clear, track append/slice/copy/index, explicit and default times) over small alphabets in four worlds (spherical, diffuse/mixed layout, time courses, tracks) and checks Aligned, Owned (default-path members reachable from exactly one place), ArrShared, OrderFree (queries invariant under all permutations) and HeapGrows in every state. Every transition printed by TLC (quick: 8.6e4, thorough: >1e6) is replayed: API calls along a path to the source state, then the operation; compared are exception type, lengths, layouts (dtype slot), times, every reachable droplet value (exact rationals), the aliasing partition of all handles found by writing through each handle, and count / mean / std of radii and volumes / total volume / area-weighted interface width / bounding box / durations / trajectories / nearest-time lookup against the spec's exact folds, also on the reversed emulsion, and count/mean/std/total volume against their definitions over the real members for every emulsion (mixed dimensions included). Code->spec: 48 (thorough 640) seeded random sequences of 25 (40) calls over all 24 operations are executed on real objects; each call is logged with arguments, exception and the canonical observable state (values in slot order, first slot holding the same object, layouts, times) and TLC accepts a log only if every event is a step of the spec's action with that outcome (Aligned/Owned/ArrShared checked along the way); a deliberately corrupted log must be rejected.",
+        text="TLC explores every sequence of <=3-5 public operations (append/extend with copy and force_consistency flags, constructors, copy(min_radius), slices, +, remove_small, remove_overlapping, get_linked_data + writes through the array, writes through caller references, merge of members in place and out of place, time-course append/slice/copy/index/clear, track append/slice/copy/index, explicit and default times, track lists, to_file/from_file of all four kinds with truncation on error, DropletTrackList.from_emulsion_time_course with both methods and a cut-off) over small alphabets in seven worlds (spherical, diffuse/mixed layout, time courses, tracks, track lists, files, tracking) and checks Aligned, Owned (default-path members reachable from exactly one place), ArrShared, OrderFree (queries invariant under all permutations), TrackingConserves (for EVERY reachable time course, incl. repeated / decreasing times and empty frames, and every method the tracks hold exactly the (droplet value, time) pairs of the course as fresh objects and the input heap is untouched) and HeapGrows in every state. Every transition printed by TLC (quick: 8.6e4, thorough: >1e6) is replayed: API calls along a path to the source state, then the operation; compared are exception type, lengths, layouts (dtype slot), times, every reachable droplet value (exact rationals), the aliasing partition of all handles found by writing through each handle, and count / mean / std of radii and volumes / total volume / area-weighted interface width / bounding box / durations / trajectories / nearest-time lookup / `==` between emulsions, time courses and tracks / DropletTrack.time_overlaps against the spec's exact folds, also on the reversed emulsion, and count/mean/std/total volume against their definitions over the real members for every emulsion (mixed dimensions included). Code->spec: 48 (thorough 640) seeded random sequences of 25 (40) calls over all 36 operations are executed on real objects; each call is logged with arguments, exception and the canonical observable state (values in slot order, first slot holding the same object, layouts, times) and TLC accepts a log only if every event is a step of the spec's action with that outcome (Aligned/Owned/ArrShared checked along the way); a deliberately corrupted log must be rejected.",
         note="Trusted: TLC; the projection in harness/c20.py. Bounded: exhaustive up to depth 3-5 over the stated alphabets; 1-D geometry with rational coordinates (2-D droplets occur only as wrong-layout members). Non-default paths (copy=False duplicates + get_linked_data) are modelled as the code behaves. Found and repaired F10 (merge after get_linked_data raised).",
         ref="§3 C20",
     ),
